@@ -17,6 +17,8 @@ from props.common import quiet_ccp
 
 ID = "C10"
 LEAN_MODULES = ["Ccp.Props.C10"]
+# bound of the escalated quick run (source fingerprint changed -> thorough generator): keeps that run near two minutes
+ESCALATE_MAX_CASES = 25000
 SCRATCH = "/tmp/C10-scratch"
 SYNTAXES = ["ios", "nxos", "iosxr", "asa", "junos"]
 # what Diff.__init__ hands to hier_config.Host for each accepted syntax
